@@ -10,6 +10,7 @@
 # MIT License
 
 ### IMPORTS
+import copy
 from ..logger import log
 ###
 
@@ -62,7 +63,9 @@ class SimulationScenario():
         if "points" in dictionary:
             self.points = dictionary["points"]
             if model is not None:
-                self.model.points = self.points
+                # the model keeps its own dictionary: sharing the scenario's settings dict let step settings
+                # overwrite the scenario's points, and rebinding dropped the model's other graphical functions
+                self.model.points.update(copy.deepcopy(self.points))
         else:
             self.points = {}
 
